@@ -315,6 +315,38 @@ pub fn count_dir(p: &str) -> i64 {
     std::fs::read_dir(p).map(|d| d.count() as i64).unwrap_or(0)
 }
 
+/// Writers kept alive across operations and transactions of one history (an application may well
+/// keep its `Writer` around): anything a writer caches must survive commits and aborts correctly.
+pub struct WriterPool {
+    pub persistent: bool,
+    map: HashMap<(u16, Metric), Box<dyn std::any::Any>>,
+}
+
+impl WriterPool {
+    pub fn new(persistent: bool) -> Self {
+        WriterPool { persistent, map: HashMap::new() }
+    }
+    pub fn with<D: arroy::Distance, R>(&mut self, m: Metric, db: RawDb, idx: u16, dim: usize, f: impl FnOnce(&mut arroy::Writer<D>) -> R) -> R {
+        if !self.persistent {
+            let mut w = arroy::Writer::<D>::new(db.remap_types(), idx, dim);
+            return f(&mut w);
+        }
+        let e = self.map.entry((idx, m)).or_insert_with(|| Box::new(arroy::Writer::<D>::new(db.remap_types(), idx, dim)));
+        f(e.downcast_mut::<arroy::Writer<D>>().expect("writer type"))
+    }
+    pub fn take<D: arroy::Distance>(&mut self, m: Metric, db: RawDb, idx: u16, dim: usize) -> arroy::Writer<D> {
+        match self.map.remove(&(idx, m)) {
+            Some(b) if self.persistent => *b.downcast::<arroy::Writer<D>>().expect("writer type"),
+            _ => arroy::Writer::<D>::new(db.remap_types(), idx, dim),
+        }
+    }
+    pub fn put<D: arroy::Distance>(&mut self, m: Metric, idx: u16, w: arroy::Writer<D>) {
+        if self.persistent {
+            self.map.insert((idx, m), Box::new(w));
+        }
+    }
+}
+
 /// where the executor currently is: (history number, op index, inside a build); read by the hang watchdog
 pub static PROGRESS: std::sync::Mutex<(i64, i64, bool)> = std::sync::Mutex::new((-1, -1, false));
 
@@ -325,13 +357,17 @@ pub struct BuildOutcome {
 
 /// run one build with cancellation / watchdog instrumentation
 pub fn do_build(wtxn: &mut RwTxn, db: RawDb, idx: u16, metric: Metric, dim: usize, o: &BuildOpts, max_polls: u64) -> BuildOutcome {
+    do_build_with(&mut WriterPool::new(false), wtxn, db, idx, metric, dim, o, max_polls)
+}
+
+#[allow(clippy::too_many_arguments)]
+pub fn do_build_with(pool: &mut WriterPool, wtxn: &mut RwTxn, db: RawDb, idx: u16, metric: Metric, dim: usize, o: &BuildOpts, max_polls: u64) -> BuildOutcome {
     let polls = AtomicU64::new(0);
     let watchdog = std::sync::atomic::AtomicBool::new(false);
     let cancel_at = o.cancel_at;
     let r = catch_unwind(AssertUnwindSafe(|| {
         with_metric!(metric, D, {
-            let adb: arroy::Database<D> = db.remap_types();
-            let mut w = arroy::Writer::<D>::new(adb, idx, dim);
+            pool.with::<D, _>(metric, db, idx, dim, |w| {
             if let Some(t) = &o.tmpdir {
                 w.set_tmpdir(t);
             }
@@ -358,6 +394,7 @@ pub fn do_build(wtxn: &mut RwTxn, db: RawDb, idx: u16, metric: Metric, dim: usiz
                 }
             });
             b.build(wtxn)
+            })
         })
     }));
     let polls_n = polls.load(Ordering::SeqCst);
@@ -412,10 +449,14 @@ pub fn run_history_with(
         "nids": ctx.ids.len() as i64,
         "label": h.label,
         "mapfull": h.faults.iter().any(|f| f == "mapfull"),
+        "persistent_writers": hno % 2 == 1,
     }));
 
     let mut wtxn: Option<RwTxn> = None;
     let mut before: RawDump = preload(&env, db, &mut ctx, out);
+    // half of the histories keep their writers alive across operations, commits and aborts
+    let uses_tmpdir = h.ops.iter().any(|o| matches!(o, Op::Build { o, .. } if o.tmpdir.is_some()));
+    let mut pool = WriterPool::new(!uses_tmpdir && (hno % 2 == 1 || h.label.starts_with("store") && hno % 3 != 0));
     // after an out-of-space error LMDB refuses every further use of the transaction (BadTxn):
     // the remaining operations of that transaction are skipped and a commit becomes an abort
     let mut dead = false;
@@ -484,13 +525,7 @@ pub fn run_history_with(
                 let vf = unbits(v);
                 let r = catch_unwind(AssertUnwindSafe(|| {
                     with_metric!(m, D, {
-                        let adb: arroy::Database<D> = db.remap_types();
-                        let wr = arroy::Writer::<D>::new(adb, idx, dim);
-                        if is_app {
-                            wr.append_item(w, *id, &vf)
-                        } else {
-                            wr.add_item(w, *id, &vf)
-                        }
+                        pool.with::<D, _>(m, db, idx, dim, |wr| if is_app { wr.append_item(w, *id, &vf) } else { wr.add_item(w, *id, &vf) })
                     })
                 }));
                 let res = match r {
@@ -511,10 +546,7 @@ pub fn run_history_with(
             }
             Op::Del { id, .. } => {
                 let r = catch_unwind(AssertUnwindSafe(|| {
-                    with_metric!(m, D, {
-                        let adb: arroy::Database<D> = db.remap_types();
-                        arroy::Writer::<D>::new(adb, idx, dim).del_item(w, *id)
-                    })
+                    with_metric!(m, D, { pool.with::<D, _>(m, db, idx, dim, |wr| wr.del_item(w, *id)) })
                 }));
                 ev["ev"] = json!("Del");
                 ev["id"] = json!(ctx.rank(*id));
@@ -530,10 +562,7 @@ pub fn run_history_with(
                 for (id, v) in items {
                     let vf = unbits(v);
                     let r = catch_unwind(AssertUnwindSafe(|| {
-                        with_metric!(m, D, {
-                            let adb: arroy::Database<D> = db.remap_types();
-                            arroy::Writer::<D>::new(adb, idx, dim).add_item(w, *id, &vf)
-                        })
+                        with_metric!(m, D, { pool.with::<D, _>(m, db, idx, dim, |wr| wr.add_item(w, *id, &vf)) })
                     }));
                     match r {
                         Ok(Ok(())) => toks.push(json!([ctx.rank(*id), ctx.tok(&represent(m, &vf))])),
@@ -556,10 +585,7 @@ pub fn run_history_with(
                 let mut rets = Vec::new();
                 for id in ids {
                     let r = catch_unwind(AssertUnwindSafe(|| {
-                        with_metric!(m, D, {
-                            let adb: arroy::Database<D> = db.remap_types();
-                            arroy::Writer::<D>::new(adb, idx, dim).del_item(w, *id)
-                        })
+                        with_metric!(m, D, { pool.with::<D, _>(m, db, idx, dim, |wr| wr.del_item(w, *id)) })
                     }));
                     match r {
                         Ok(Ok(b)) => rets.push(json!([ctx.rank(*id), b])),
@@ -579,10 +605,7 @@ pub fn run_history_with(
             }
             Op::Clear { .. } => {
                 let r = catch_unwind(AssertUnwindSafe(|| {
-                    with_metric!(m, D, {
-                        let adb: arroy::Database<D> = db.remap_types();
-                        arroy::Writer::<D>::new(adb, idx, dim).clear(w)
-                    })
+                    with_metric!(m, D, { pool.with::<D, _>(m, db, idx, dim, |wr| wr.clear(w)) })
                 }));
                 ev["ev"] = json!("Clear");
                 ev["res"] = match r {
@@ -609,8 +632,8 @@ pub fn run_history_with(
                 let r = catch_unwind(AssertUnwindSafe(|| {
                     with_metric!(m, D, {
                         with_metric!(to, ND, {
-                            let adb: arroy::Database<D> = db.remap_types();
-                            arroy::Writer::<D>::new(adb, idx, dim).prepare_changing_distance::<ND>(w).map(|_| ())
+                            let old = pool.take::<D>(m, db, idx, dim);
+                            old.prepare_changing_distance::<ND>(w).map(|nw| pool.put::<ND>(to, idx, nw))
                         })
                     })
                 }));
@@ -645,7 +668,7 @@ pub fn run_history_with(
                 let fds_before = count_fds();
                 let tmp_before = o.tmpdir.as_ref().map(|t| count_dir(t)).unwrap_or(-1);
                 *PROGRESS.lock().unwrap() = (hno as i64, k as i64, true);
-                let bo = do_build(w, db, idx, m, dim, o, h.max_polls.min(cfg.max_polls));
+                let bo = do_build_with(&mut pool, w, db, idx, m, dim, o, h.max_polls.min(cfg.max_polls));
                 *PROGRESS.lock().unwrap() = (hno as i64, k as i64, false);
                 let fds_after = count_fds();
                 let tmp_after = o.tmpdir.as_ref().map(|t| count_dir(t)).unwrap_or(-1);
